@@ -80,6 +80,7 @@ def raised(e: BaseException) -> dict:
 # expressions
 # ------------------------------------------------------------------------------------------------
 _sim_scratch = None
+SUBRUN_CONFIG = None   # two-level config dict handed to sub-schedulers (set by the C38 driver per run)
 
 OPS = {"add": operator.add, "sub": operator.sub, "mul": operator.mul, "lt": operator.lt,
        "eq": operator.eq, "getitem": operator.getitem}
@@ -153,6 +154,13 @@ def build(e: dict):
         return p(*[build(a) for a in e["args"]])
     if k == "getctx":
         return get_context(".".join(e["path"]), from_value(e["default"]))
+    if k == "subrun":
+        from redun.scheduler import subrun
+
+        if SUBRUN_CONFIG is None:
+            raise RuntimeError("SUBRUN_CONFIG not set")
+        return subrun(build(e["e"]), executor="default", config=SUBRUN_CONFIG,
+                      new_execution=bool(e.get("newexec")), load_modules=["harness.evallib"])
     if k == "tags":
         return apply_tags(build(e["e"]), [(t[0], t[1]) for t in e.get("tags", [])])
     raise ValueError(k)
